@@ -26,7 +26,7 @@ EXPLANATION = ('Failure-atomicity and guard rules on the CFG of FeatureRef::appl
                'value from readFeats, a cast-chain typing rule on the setting comparison, copy-constructor use at the two clone sites, '
                'the language match, and the shared tag-normalisation rule.  How need_bits are packed into 32-bit chunks and which bytes '
                'a label has are value-level and not decided.')
-FLOORS = {'NOSTRADDLE': 1, 'FAILATOMIC': 5, 'READGUARD': 1, 'NOSETTINGS': 1, 'SETTINGZEXT': 1, 'CLONE': 3, 'LANGMATCH': 4, 'INDEXTESTS': 1, 'TAGNORM': 3, 'NARROWREAD': 1}
+FLOORS = {'NOSTRADDLE': 1, 'FAILATOMIC': 6, 'READGUARD': 1, 'NOSETTINGS': 1, 'SETTINGZEXT': 1, 'CLONE': 3, 'LANGMATCH': 4, 'INDEXTESTS': 1, 'TAGNORM': 3, 'NARROWREAD': 1}
 
 
 def failatomic(run, fx):
@@ -412,5 +412,7 @@ def run(run):
     langmatch(run, fx)
     indextests(run, fx)
     tagnorm.check(run, fx, 'TAGNORM')
+    from . import vecmodel
+    vecmodel.check(run, fx, 'FAILATOMIC')     # applyValToFeature grows the value vector with resize(): the words it appends must be zero, the others untouched
     from . import c13
     c13.narrowread(run, fx)        # a language tag / feature id / setting read from Feat or Sill is not truncated on its way into the map (shared with C01, C13)
